@@ -249,6 +249,8 @@ def run(ctx):
                      '(_TryAgainWithSkippedCommentOrWhitespaceNodes), the reader stands strictly after '
                      'the position it had when the attempt started (past the token, at the token after '
                      'non-empty leading whitespace, or at the recovery position of a token error)', 4)
+    ctx.rule('R06i', 'every stray closing token (brace, \\end, math delimiter that opens nothing) is rejected by the '
+                     'dispatcher with recovery PAST the token, unconditionally: tolerant parsing moves on', 3)
     ctx.rule('R06h', 'recovery information is optional: an attribute recovery_* is read from the caught '
                      'exception only where hasattr() of an attribute set by the same constructor dominates, or '
                      'inside a handler that catches exactly the class defining it (a plain LatexWalkerParseError '
@@ -493,6 +495,11 @@ def run(ctx):
     _retry_progress(ctx, repo)
     _nodelist_position_fallback(ctx, repo)
     _optional_recovery_attributes(ctx, repo)
+    # a closing token that reaches the dispatcher is rejected there (with recovery past it): otherwise
+    # the math/group parser it is handed to reports "no opening delimiter", consumes nothing, and the
+    # tolerant collector reads the same token again for ever (shared with C05 R05e)
+    from . import c05
+    c05.stray_closers(c05._Sub(ctx, 'R06i'), 'R06i', repo)
     ctx.assume('termination is decided only through token-level progress (R06b, C11 R11a); implicit '
                'exceptions only through the crash-construct rules')
     return 'other', (
